@@ -33,7 +33,10 @@ class AggrGen:
         k = r.weighted([("r", 5), ("t", 4)])
         if k == "r":
             fs = r.pick(FIELDSETS)
-            return ("r", [(f, self.leaf_type(depth)) for f in sorted(fs)])
+            tys = [(f, self.leaf_type(depth)) for f in sorted(fs)]
+            if len(tys) >= 3 and self.p.get("fn_fields", True) and r.chance(1, 3):
+                tys[-1] = (tys[-1][0], ("fn",))      # a handle (closure) as the LAST word of the record: a clobbered word crashes
+            return ("r", tys)
         return ("t", [self.leaf_type(depth) for _ in range(2 + r.below(3))])
 
     def leaf_type(self, depth):
@@ -132,6 +135,11 @@ class AggrGen:
                 mid = [c for c in cands if 0 < c[0] < len(t[1]) - 1]
                 i, f = r.pick(mid if mid and r.chance(2, 3) else cands)
                 stmts.append(("setf", v, f, i, len(t[1]), self.simple(ctx)))
+                if r.chance(1, 2):
+                    # a single-word result produced right after the write into the middle of the record
+                    x = self.fresh()
+                    stmts.append(("let", x, self.stateful(ctx)))
+                    ctx.append((x, ("f",), True))
             elif k == "state":
                 x = self.fresh()
                 stmts.append(("let", x, self.stateful(ctx)))
